@@ -59,7 +59,7 @@ contract(
     ],
     calls={"self._contains": ("const", True),
            "self._idx_to_sb_idx": ("contract", LM + "::Limit._idx_to_sb_idx")},
-    modifies=["Limit._scoreboard", "Limit._dirty", "$region:Limit._scoreboard"],
+    modifies=["Limit._scoreboard@self", "Limit._dirty@self", "$obj:self._scoreboard"],
 )
 
 contract(
@@ -78,7 +78,7 @@ contract(
                   "len(o._scoreboard) == old(len(o._scoreboard)) and forall(q, cntv(o, q) == old(cntv(o, q)))))"),
     ],
     calls={"self._idx_to_sb_idx": ("spec", ["self", "i"], "uf_sbidx(self, i)")},
-    modifies=["Limit._dirty", "$region:Limit._scoreboard"],
+    modifies=["Limit._dirty@self", "$obj:self._scoreboard"],
 )
 
 contract(
@@ -105,7 +105,8 @@ ghost("LimitOkSpec", ["l", "i", "up", "res"],
       "ite(l.upper != up, True, ite(l.resource is not None and l.resource != res, True, "
       "ite(uf_sbidx(l, i) < 0, True, ite(l.upper, cntv(l, uf_sbidx(l, i)) < l.value, cntv(l, uf_sbidx(l, i)) >= l.value))))")
 ghost("LimitsOkSpec", ["ls", "i", "up", "res"],
-      "forall(k, 0, len(ls._limits), LimitOkSpec(ls._limits[k], i, up, res))")
+      "forall(k, 0, len(ls._limits), LimitOkSpec(ls._limits[k], i, up, res))",
+      opaque=Bool, types=[Ref("Limits"), Int, Bool, Opt(Str)])
 # the limit objects of a collection are pairwise different objects with their own counter lists
 ghost("LimitsWf", ["ls"],
       "forall(a, 0, len(ls._limits), LimWf(ls._limits[a]) and forall(b, 0, len(ls._limits), implies(a != b, "
@@ -121,7 +122,7 @@ contract(
 )
 
 contract(
-    LM + "::Limits.ok", props=["C05"],
+    LM + "::Limits.ok", props=["C05"], reveal=["LimitsOkSpec"],
     params={"self": Ref("Limits"), "index": Opt(Int), "upper": Bool, "resource": Opt(Str)}, ret=Bool,
     defaults={"index": None, "upper": True, "resource": None},
     requires=[("wf", "LimitsWf(self)"), ("idx", "index is not None")],
